@@ -293,6 +293,112 @@ def judge_equivariance(ctx, base_obs, perm_obs, perm, m, cfg, case):
                          name, list(perm), w.tolist(), want.tolist()))
 
 
+def judge_all_consistency(ctx, obs, cfg, case):
+    """every p-value family returned by test_all must be what the single-purpose test returns"""
+    for name, r in obs.items():
+        base, _, tt = name.partition(':')
+        if not base.endswith('_all') or r[0] != 'ok':
+            continue
+        single = obs.get(base[:-4] + ':' + tt)
+        if single is None or single[0] != 'ok':
+            continue
+        a, b = np.asarray(r[1], dtype=float), np.asarray(single[1], dtype=float)
+        if a.shape != b.shape or not allclose(a, b, 1e-12):
+            ctx.fail(sig_for(name, cfg, 'differs-from-single-purpose-test'), case,
+                     'test_all(%r) gives %r, %s(%r) gives %r' % (
+                         tt, a.tolist(), OPS[base[:-4]].split('.')[1], tt, b.tolist()))
+
+
+def reference_variances(cov, m, n_rdm, n_pattern):
+    """(model_var, diff_var, nc_var) from the stored covariance by the reference contrasts; for a
+    3-stack the library's combination of three SCALARS is applied to each reference contrast"""
+    cov = np.asarray(cov, dtype=float)
+    if cov.ndim < 3:
+        return ref.expected_variances(cov, m, n_rdm, n_pattern)
+    cache = {}
+    out = []
+    for layers in ref.stack_contrasts(cov, m):
+        arr = np.empty(layers[0].shape)
+        for pos in np.ndindex(arr.shape):
+            arr[pos] = _scalar_combination(layers[0][pos], layers[1][pos], layers[2][pos], n_rdm, n_pattern, cache)
+        out.append(arr)
+    return tuple(out)
+
+
+def judge_t_reference(ctx, obs, cfg, case, ev, ceil, cov, m, dof, n_rdm, n_pattern):
+    """t-test p-values (single-purpose and test_all) against the reference computed from the NaN-aware
+    means and the reference contrasts of the stored covariance (ceiling: LOWER row)"""
+    mv, dv, nv = reference_variances(cov, m, n_rdm, n_pattern)
+    with np.errstate(all='ignore'):
+        ceiling = float(np.nanmean(np.asarray(ceil, dtype=float)[0]))
+    want = ref.t_test_reference(ref.nan_mean_per_model(ev), mv, dv, nv[:, 0], ceiling, dof)
+    plan = [('p_pair', want['p_pair'], want['pair_ok'] | np.eye(m, dtype=bool)), ('p_zero', want['p_zero'], want['zero_ok']),
+            ('p_noise', want['p_nc'], want['nc_ok'])]
+    for fam, w, ok in plan:
+        n_ex = int((~ok).sum()) // (2 if w.ndim == 2 else 1)
+        if n_ex:
+            ctx.excluded['t statistic undefined (non-positive variance)'] += n_ex
+        for suffix in ('', '_all'):
+            name = fam + suffix + ':t-test'
+            r = obs.get(name)
+            if r is None or r[0] != 'ok' or not ok.any():
+                continue
+            got = np.asarray(r[1], dtype=float)
+            if got.shape != w.shape:
+                continue        # shape is judged by judge_ranges
+            ctx.dev('t-reference', maxreldev(got[ok], w[ok]))
+            if not allclose(got[ok], w[ok], TOL):
+                ctx.fail(sig_for(name, cfg, 'differs-from-t-test-on-the-covariance-contrast'), case,
+                         '%s = %r, reference %r (dof %r, ceiling %r, stored covariance %r)' % (
+                             name, got.tolist(), w.tolist(), dof, ceiling, np.asarray(cov).tolist()))
+
+
+def observe_errorbars(R, shape):
+    """error bars from Result.get_errorbars and from inference_util.get_errorbars (the routine behind the
+    plots) next to the get_sem / get_ci / get_means they must agree with"""
+    from rsatoolbox.util.inference_util import get_errorbars
+    out = {'sem': _try(R.get_sem), 'means': _try(R.get_means)}
+    kinds = [('sem', 't-test'), ('ci90', 't-test')]
+    if len(shape) == 2 and shape[0] >= 2:
+        kinds.append(('ci50', 'bootstrap'))
+    for eb, tt in kinds:
+        key = '%s:%s' % (eb, tt)
+        out['result:' + key] = _try(lambda: np.array(R.get_errorbars(eb, tt), dtype=float))
+        out['util:' + key] = _try(lambda: np.array(
+            get_errorbars(R.model_var, R.evaluations, R.dof, eb, tt), dtype=float))
+        if eb != 'sem':
+            out['ci:' + key] = _try(lambda: np.array(R.get_ci(float(eb[2:]) / 100, tt), dtype=float))
+    return out
+
+
+def judge_errorbars(ctx, eb, cfg, case):
+    """get_errorbars('sem') == (SEM, SEM); get_errorbars('ci..') == (mean - ci_low, ci_high - mean)"""
+    if eb['sem'][0] != 'ok' or eb['means'][0] != 'ok' or eb['sem'][1] is None:
+        return
+    sem, means = np.asarray(eb['sem'][1], dtype=float), np.asarray(eb['means'][1], dtype=float)
+    for key, r in eb.items():
+        src, _, rest = key.partition(':')
+        if src not in ('result', 'util'):
+            continue
+        kind, _, tt = rest.partition(':')
+        op = 'Result.get_errorbars' if src == 'result' else 'inference_util.get_errorbars'
+        tag = 'type=%s,test=%s' % ('sem' if kind == 'sem' else 'ci', tt)
+        if kind == 'sem':
+            want, partner = np.array([sem, sem]), 'get_sem'
+        else:
+            ci = eb['ci:' + rest]
+            if ci[0] != 'ok' or not np.isfinite(ci[1]).all():
+                continue          # too few bootstrap samples for the interval: both may refuse
+            want, partner = np.array([means - ci[1][0], ci[1][1] - means]), 'get_ci'
+        if r[0] != 'ok':
+            ctx.fail('%s|%s|raises:%s' % (op, tag, r[1]), case, '%s raised %s' % (key, r[3]))
+            continue
+        got = np.asarray(r[1], dtype=float)
+        if got.shape != want.shape or not allclose(got, want, TOL):
+            ctx.fail('%s|%s|differs-from-%s' % (op, tag, partner), case,
+                     '%s = %r, from %s and get_means: %r' % (key, got.tolist(), partner, want.tolist()))
+
+
 # ----------------------------------------------------------------------------- family V
 def _scalar_combination(c0, c1, c2, n_rdm, n_pattern, cache):
     """the library's own dual-bootstrap combination of three scalars (1 model, 3 x 1 x 1 stack)"""
@@ -505,6 +611,10 @@ def run_T(case, ctx):
         ctx.case(case)
         judge_raises(ctx, base, cfg, case)
         judge_ranges(ctx, base, cfg, case, m, untied_matrix(ev) if 'bootstrap' in types else None)
+        judge_all_consistency(ctx, base, cfg, case)
+        if 't-test' in types:
+            judge_t_reference(ctx, base, cfg, case, ev, ceil, cov, m, dof, n_rdm, n_pattern)
+            judge_errorbars(ctx, observe_errorbars(R, shape), cfg, case)
         r = base['means']
         if r[0] == 'ok':
             want = ref.nan_mean_per_model(ev)
@@ -636,6 +746,7 @@ def _F_execute(case, ctx):
         ctx.case(case)
         judge_raises(ctx, base, cfg, case)
         judge_ranges(ctx, base, cfg, case, m)
+        judge_all_consistency(ctx, base, cfg, case)
         rec = {'case': case, 'base': base, 'per_subject': per_subject, 'ceiling': ceiling,
                'mean_ref': ref.nan_mean_per_model(R.evaluations)}
     if rec is None:
@@ -733,6 +844,7 @@ def run_M(case, ctx):
             ctx.case(sub)
             judge_raises(ctx, obs, cfg, sub)
             judge_ranges(ctx, obs, cfg, sub, m)
+            judge_all_consistency(ctx, obs, cfg, sub)
             rows.append((e, obs))
     slack = 1e-12
 
@@ -998,6 +1110,75 @@ def run_S(case, ctx):
             ctx.outcome(('S', level, seq[-1], alone[seq[-1]][0][:12]))
 
 
+# ----------------------------------------------------------------------------- family X
+# test_all / all_tests against the single-purpose routines and against the reference t-tests, for stored
+# covariances whose two ceiling rows differ (in variance and in covariance with the models), every input form.
+X_SHAPES = [(1, 3), (3,), (2, 2, 2)]          # trailing shapes: (samples, [models], ...)
+
+
+def run_X(case, ctx):
+    from rsatoolbox.inference.result import Result
+    from rsatoolbox.util import inference_util as iu
+    m, form = case['m'], case['form']
+    n_rdm, n_pattern = case['n']
+    dof = case['dof']
+    cov = build_cov(form, m, True, case['vals'], ctx.seed)
+    if case['vals'][0] == 'B':
+        # make the two ceiling rows clearly different: upper ceiling noisier and differently correlated
+        cov = np.array(cov, dtype=float)
+        if cov.ndim == 1:
+            cov[-1] = cov[-1] * 3.0 + 0.2
+        else:
+            cov[..., -1, -1] = cov[..., -1, -1] * 3.0 + 0.2
+            cov[..., :-2, -1] *= -0.5
+            cov[..., -1, :-2] *= -0.5
+    tshape = X_SHAPES[case['shape']]
+    shape = (tshape[0], m) + tuple(tshape[1:])
+    g = rng_for(ctx.seed, 'X-eval', m, case['shape'], case.get('fill', 0))
+    ev = np.round(0.2 + 0.3 * g.normal(size=shape), 4)
+    ceil = np.array([0.35, 0.8])
+    cv = 'fixed' if shape[0] == 1 else cv_for(shape)
+    cfg = {'var': form + '+nc', 'cv': cv, 'nc': 'fixed', 'ndim': '=2' if len(shape) == 2 else '>2'}
+    with ctx.guard('Result.__init__|var=%s' % cfg['var'], case):
+        R = Result(_models(m), ev.copy(), 'cosine', cv, ceil.copy(), variances=cov.copy(), dof=dof,
+                   n_rdm=n_rdm, n_pattern=n_pattern)
+        obs = observe(R, ['t-test'], with_var=True, rest=False)
+        ctx.case(case)
+        judge_raises(ctx, obs, cfg, case)
+        judge_ranges(ctx, obs, cfg, case, m)
+        judge_all_consistency(ctx, obs, cfg, case)
+        judge_t_reference(ctx, obs, cfg, case, ev, ceil, cov, m, dof, n_rdm, n_pattern)
+        judge_errorbars(ctx, observe_errorbars(R, shape), cfg, case)
+        # the util-level routines on the same arrays
+        mv, dv, nv = iu.extract_variances(cov.copy(), True, n_rdm, n_pattern)
+        u = {}
+        allr = _try(lambda: iu.all_tests(ev.copy(), ceil.copy(), 't-test', mv, dv, nv, dof))
+        if allr[0] == 'ok':
+            u['p_pair_all:t-test'], u['p_zero_all:t-test'], u['p_noise_all:t-test'] = [('ok', x) for x in allr[1]]
+        else:
+            u['all:t-test'] = allr
+        u['p_pair:t-test'] = _try(lambda: iu.pair_tests(ev.copy(), 't-test', dv, dof))
+        u['p_zero:t-test'] = _try(lambda: iu.zero_tests(ev.copy(), 't-test', mv, dof))
+        u['p_noise:t-test'] = _try(lambda: iu.nc_tests(ev.copy(), ceil.copy(), 't-test', nv, dof))
+        ucfg = dict(cfg, util=True)
+        for name in list(u):
+            if u[name][0] == 'raises':
+                ctx.fail('inference_util.%s|var=%s|raises:%s' % (name.partition(':')[0], cfg['var'], u[name][1]), case, u[name][3])
+        for fam_, fn in (('p_pair', 'pair_tests'), ('p_zero', 'zero_tests'), ('p_noise', 'nc_tests')):
+            a, b = u.get(fam_ + '_all:t-test'), u.get(fam_ + ':t-test')
+            if a and b and a[0] == b[0] == 'ok':
+                a, b = np.asarray(a[1], dtype=float), np.asarray(b[1], dtype=float)
+                if a.shape != b.shape or not allclose(a, b, 1e-12):
+                    ctx.fail('inference_util.all_tests[%s]|test=t-test,var=%s|differs-from-%s' % (fam_[2:], cfg['var'], fn),
+                             case, 'all_tests gives %r, %s gives %r' % (a.tolist(), fn, b.tolist()))
+                r = obs.get(fam_ + ':t-test')
+                if r and r[0] == 'ok' and not allclose(b, np.asarray(r[1], dtype=float), 1e-12):
+                    ctx.fail('inference_util.%s|test=t-test,var=%s|differs-from-Result-method' % (fn, cfg['var']), case,
+                             '%s gives %r, the Result method %r' % (fn, b.tolist(), np.asarray(r[1]).tolist()))
+        if obs.get('p_noise:t-test', ('',))[0] == 'ok':
+            ctx.outcome(('X', np.round(np.asarray(obs['p_noise:t-test'][1], float), 6).tolist()))
+
+
 # ----------------------------------------------------------------------------- enumeration
 def _chunks(total, size):
     return [[a, min(total, a + size)] for a in range(0, total, size)]
@@ -1137,6 +1318,15 @@ def shards(tier, seed):
         out.append({'fam': 'S', 'level': 'eval_fixed', 'm': m, 'n': 4, 'fill': 0, 'depth': 2})
         if th:
             out.append({'fam': 'S', 'level': 'eval_fixed', 'm': m, 'n': 6, 'fill': 1, 'depth': 2, 'method': 'cosine'})
+    # ---- X: test_all vs single-purpose tests vs reference t-tests, asymmetric ceiling rows, every form
+    for m in (1, 2, 3, 4):
+        for form in ('vector', 'matrix', 'stack'):
+            out.append({'fam': 'X', 'm': m, 'form': form, 'fills': 6 if th else 2})
+    for m, form, alpha in [(1, 'vector', 'v3'), (2, 'vector', 'v3'), (1, 'matrix', 'v3')] + (
+            [(3, 'vector', 'v3'), (1, 'stack', 'v2')] if th else []):
+        total = len(ALPHA[alpha]) ** cov_length(form, m + 2)
+        for rng in _chunks(total, 400):
+            out.append({'fam': 'X', 'm': m, 'form': form, 'alpha': alpha, 'range': rng})
     # ---- M: monotonicity grids
     for m in (1, 2, 3):
         for dof in (1, 2, 7):
@@ -1215,6 +1405,18 @@ def run_shard(shard, ctx):
                                   'n_rdm': [None, 3][target % 2]}, ctx)
     elif fam == 'S':
         run_case(shard, ctx)
+    elif fam == 'X':
+        m, form = shard['m'], shard['form']
+        if 'range' in shard:
+            for idx in range(*shard['range']):
+                run_case({'fam': 'X', 'm': m, 'form': form, 'vals': ['A', shard['alpha'], idx], 'n': N_COMBOS[idx % 9],
+                          'dof': (1, 2, 7)[idx % 3], 'shape': idx % 3}, ctx)
+        else:
+            for fill in range(shard['fills']):
+                for k, n in enumerate(N_COMBOS):
+                    for sh in range(len(X_SHAPES)):
+                        run_case({'fam': 'X', 'm': m, 'form': form, 'vals': ['B', fill], 'fill': fill, 'n': list(n),
+                                  'dof': (1, 2, 7)[(k + sh) % 3], 'shape': sh}, ctx)
     else:
         raise ValueError(fam)
 
@@ -1231,5 +1433,7 @@ def run_case(case, ctx):
         run_M(case, ctx)
     elif fam == 'S':
         run_S(case, ctx)
+    elif fam == 'X':
+        run_X(case, ctx)
     else:
         raise ValueError(fam)
